@@ -187,6 +187,13 @@ def gen_cases(run):
             for pi in range(2 if (src[0] == "gen" and src[3] is not None) else 11):
                 cid += 1
                 yield {"id": cid, "kind": kind, "path_idx": pi, "recipe": {"src": src, "op": None}, "props": props}
+            if src[0] == "gen" and src[3] is not None:
+                # a feature draws its concrete form (which spelling, which attribute order) from the seed: a few more seeds of every
+                # feature, unmutated, for the interface contracts and the stored-properties comparison
+                for extra in range(1, run.n(4, 12)):
+                    src2 = [src[0], src[1], src[2] + extra, src[3]]
+                    cid += 1
+                    yield {"id": cid, "kind": kind, "path_idx": extra % 11, "recipe": {"src": src2, "op": None}, "props": docs.build(src2[1], src2[2], src2[3])[1].meta or None}
             fams = [("byte", op) for op in ("bitflip", "byteset", "zero", "numbers", "truncate_tail", "dup")]
             if kind in corpus.ZIP_KINDS:
                 fams += [("zip", op) for op in mutate.ZIP_OPS] * 2
